@@ -35,10 +35,26 @@ class _Pandas:
     DataFrame = _Frame
 
 
-def _install(interp, calls):
+def _install(interp, calls, level="simulate"):
+    """level = "simulate": the whole deterministic simulator is abstract; "odeint": only the integrator is (the real
+    DeterministicSimulator._helper_simulate, interface and rule application run), which is what a model with rules needs"""
     IS = interp.load("bioscrape.inference_setup")
     S = interp.load("bioscrape.simulator")
     IS.ns["pd"] = _Pandas
+    if level == "odeint":
+        def odeint(f, y0, ts, **kw):
+            c = ctx()
+            k = len(calls)
+            gsim = S.ns["global_simulator"]
+            pv = list(gsim.py_get_param_values())
+            Y = np.empty((len(ts), len(y0)), dtype=object)
+            for t in range(len(ts)):
+                for s_ in range(len(y0)):
+                    Y[t, s_] = y0[s_] if t == 0 else c.real("SIM%d_%d_%d" % (k, t, s_))
+            calls.append((list(y0), pv, list(ts), Y))
+            return Y, {"message": "Integration successful."}
+        S.ns["odeint"] = odeint
+        return IS
 
     class _Res:
         _pyxsym_duck = True
@@ -67,16 +83,19 @@ def _install(interp, calls):
 
 
 def cost_job(interp, c, case):
-    N, Mm, T, p, cond_kind, single = case
+    N, Mm, T, p, cond_kind, single = case[:6]
+    level = case[6] if len(case) > 6 else "simulate"
     calls = []
-    IS = _install(interp, calls)
+    IS = _install(interp, calls, level)
     Tm = interp.load("bioscrape.types")
-    species = ["X", "Y", "Z"]
+    species = ["X", "Y", "Z"] + (["W"] if level == "odeint" else [])
     meas_all = ["Y", "X", "Z"][:Mm]
     kd = {k: c.real("def_" + k) for k in ("k1", "k2", "cnd")}
     xd = {s: c.real("x0def_" + s, lo=0) for s in species}
+    # with the real simulator underneath, the model also has a rule (on a species that is not measured)
+    rules = [("assignment", {"equation": "W = X + cnd*Y"}, "repeated")] if level == "odeint" else []
     M = Tm.ns["Model"](species=species, reactions=[(["X"], ["Y"], "massaction", {"k": "k1"}), (["Y"], ["Z"], "massaction", {"k": "k2"})],
-                       parameters=[("k1", kd["k1"]), ("k2", kd["k2"]), ("cnd", kd["cnd"])], initial_condition_dict=dict(xd))
+                       parameters=[("k1", kd["k1"]), ("k2", kd["k2"]), ("cnd", kd["cnd"])], initial_condition_dict=dict(xd), rules=rules)
     frames, data, times = [], [], []
     syms = {}
     for n in range(N):
@@ -108,8 +127,9 @@ def cost_job(interp, c, case):
               prior=prior, initial_conditions=(ics if not (single and N == 1) else ics[0]), norm_order=p, sim_type="deterministic")
     if pcs is not None:
         kw["parameter_conditions"] = pcs
-    rp = dict(N=N, M=Mm, T=T, p=p, cond=cond_kind, single=single)
-    tag = "N=%d measured=%s T=%d p=%d conditions=%s%s" % (N, meas_all, T, p, cond_kind, " single-frame" if single and N == 1 else "")
+    rp = dict(N=N, M=Mm, T=T, p=p, cond=cond_kind, single=single, rule=(level == "odeint"))
+    tag = "N=%d measured=%s T=%d p=%d conditions=%s%s%s" % (N, meas_all, T, p, cond_kind, " single-frame" if single and N == 1 else "",
+                                                            " model-with-rule/real-simulator" if level == "odeint" else "")
 
     def rep(cond, label, sig):
         ok = c.prove(cond, "%s: %s" % (tag, label), info={"sig": sig, "what": "%s: %s" % (tag, label)})
@@ -216,13 +236,17 @@ def check(tier):
     for cse in cases(tier):
         ck.add("cost/N%dM%dT%dp%d/%s%s" % (cse[0], cse[1], cse[2], cse[3], cse[4], "/single" if cse[5] else ""), "harness.C15",
                "cost_job", dict(cases=[cse]), fresh=True, timeout_ms=60000)
+    for cse in [(2, 1, 2, 2, "list", False, "odeint"), (2, 2, 2, 1, "none", False, "odeint")] + \
+            ([(3, 1, 2, 2, "dict", False, "odeint"), (3, 2, 2, 3, "list", False, "odeint")] if tier == "thorough" else []):
+        ck.add("cost-rule/N%dM%dT%dp%d/%s" % cse[:5], "harness.C15", "cost_job", dict(cases=[cse]), fresh=True, timeout_ms=60000)
     ck.add("support", "harness.C15", "support_job", dict(cases=[("below",), ("above",)]), fresh=True)
     ck.bounds = dict(trajectories="1..%d" % (3 if tier == "quick" else 4), measured_species="1..3", time_points="2..3",
                      norm_order="1..3", conditions="per-trajectory list / one dict / none", frames="columns in different orders per frame, "
                      "with an unrelated extra column")
     ck.assumptions = [
         "the simulator is an uninterpreted function: fresh symbolic outputs per call, its inputs (initial state, parameter vector, "
-        "time points) are recorded and asserted on; pandas is a column-major frame model",
+        "time points) are recorded and asserted on; pandas is a column-major frame model; in the cost-rule jobs only the integrator "
+        "(odeint) is uninterpreted and the real DeterministicSimulator, interface and rule application run on a model with a rule",
         "invariance under permutations of measurement columns and of trajectories follows from the proven formula (a sum over "
         "(n,t,m) of name-matched terms) by commutativity of +; the stochastic cost is not covered",
         "x^(1/p) for p = 2,3 is an uninterpreted sqrt/pow shared by code and oracle",
